@@ -82,6 +82,18 @@ def malformations(typ):
     add('extra-result-without-target', lambda b: edit_asb(b, typ, lambda a: a['results'].append(list(a['results'][0]))))
     add('duplicate-parameter-ids', lambda b: edit_asb(b, typ, lambda a: (a['params'].append(a['params'][0]), a.update(flags=a['flags'] | 1))))
     add('duplicate-result-ids', lambda b: edit_asb(b, typ, lambda a: a['results'][0].append(a['results'][0][0])))
+
+    def dup_apart(order):
+        # the same parameter id twice with another id in between (4 = additional unprotected
+        # headers, empty map: nothing authenticated changes)
+        def fn(a):
+            first = a['params'][0]
+            other = (4, C.dumps({}))
+            a['params'] = [first, other, first] if order == 'aba' else [other, first, other]
+            a['flags'] |= 1
+        return fn
+    add('duplicate-parameter-ids-not-adjacent', lambda b: edit_asb(b, typ, dup_apart('aba')))
+    add('duplicate-other-parameter-ids-not-adjacent', lambda b: edit_asb(b, typ, dup_apart('bab')))
     add('empty-result-list', lambda b: edit_asb(b, typ, lambda a: a['results'].__setitem__(0, [])))
     add('two-different-results', lambda b: edit_asb(b, typ, lambda a: a['results'][0].append((a['results'][0][0][0] + 1, a['results'][0][0][1]))))
     add('no-results-at-all', lambda b: edit_asb(b, typ, lambda a: a.update(results=[])))
